@@ -67,10 +67,10 @@ def _base_configs():
     # two phases of different precipitate composition on a small grid: the SECOND phase outgrows its grid (classes appended for it)
     c.append(dict(tag="two-phases-second-outgrows-its-grid", phases=[ph, dict(name="gamma", gamma=0.045, xe0=0.004, K=1.2e5, xb=0.5, VmB=1.2e-5)], D=1e-15,
                   pbm=(1e-10, 6e-10, 20, 10, 200, True), calls=[(0.2, 0.02), (0.2, 0.02)], iter="euler", cap=600))
-    # a minimum step fraction that is not negligible: the last step of a call may be shorter than it, the run still ends exactly on time
-    c.append(dict(tag="min-step-fraction-0.1", phases=[ph], D=1e-16, minfrac=0.1, calls=[(50.0, 0.5)], iter="rk4"))
-    c.append(dict(tag="min-step-fraction-0.3-euler", phases=[ph], D=1e-16, minfrac=0.3, calls=[(50.0, 0.5)], iter="euler"))
-    c.append(dict(tag="min-step-fraction-two-calls", phases=[ph], D=1e-16, minfrac=0.05, calls=[(20.0, 0.2), (30.0, 0.2)], iter="euler"))
+    # a minimum step fraction that is not negligible: the last step of a call may be shorter than it, the run still ends exactly on time.
+    # (an undersaturated alloy: nothing precipitates, so steps forced up to the minimum fraction cannot drain classes beyond the model's own limit)
+    c.append(dict(tag="min-step-fraction-undersaturated", phases=[ph], D=1e-16, x0=0.004, minfrac=0.2, calls=[(50.0, 0.3)], iter="rk4", norandom=True))
+    c.append(dict(tag="min-step-fraction-undersaturated-two-calls", phases=[ph], D=1e-16, x0=0.004, minfrac=0.2, calls=[(20.0, 0.3), (30.0, 0.3)], iter="euler", norandom=True))
     # instantaneous quench: a break point time given twice, schedule supplied through the model's setter
     c.append(dict(tag="quench-step-down-setter", phases=[ph], D=1e-16, se=1e-5, temp=("array", [0, H(4.0), H(4.0), H(10.0)], [1010, 1010, 1000, 1000]),
                   calls=[(10.0, 0.02)], iter="euler", constraints=dict(maxNonIsothermalDT=20)))
@@ -146,7 +146,7 @@ def _base_configs():
 
 def random_configs(rng, n):
     out = []
-    base = base_configs()
+    base = [c_ for c_ in base_configs() if not c_.get("norandom")]
     for i in range(n):
         c = copy.deepcopy(rng.choice(base))
         c["tag"] += "-r%d" % i
